@@ -25,10 +25,12 @@ import (
 	"fmt"
 	"io"
 	"path/filepath"
+	"reflect"
 	"regexp"
 	"runtime"
 	"runtime/debug"
 	"strings"
+	"unsafe"
 
 	"github.com/gnolang/gno/gno.land/pkg/sdk/vm"
 	"github.com/gnolang/gno/gnovm/pkg/gnoenv"
@@ -247,9 +249,16 @@ func (e *c11Env) mInit() {
 	if e.mstore != nil {
 		return
 	}
-	// Same construction as VMKeeper.Initialize on a node restart: a gno store
-	// over the committed base/iavl stores, every stored package re-preprocessed,
-	// the standard libraries type-checked into the cache.
+	// Fast path: look at the keeper's own persistent gno store and type-check
+	// cache (unexported fields, read through reflection - observation only).
+	// BeginTransaction forks it exactly like VMKeeper.newGnoTransactionStore.
+	if gs, cache, ok := c11PeekKeeper(e.vmk); ok {
+		e.mstore, e.mcache = gs, cache
+		return
+	}
+	// Slow path, same construction as VMKeeper.Initialize on a node restart: a
+	// gno store over the committed base/iavl stores, every stored package
+	// re-preprocessed, the standard libraries type-checked into the cache.
 	alloc := gno.NewAllocator(c11MaxAllocTx)
 	gs := gno.NewStore(alloc, e.ms.GetStore(e.baseKey), e.ms.GetStore(e.iavlKey))
 	gs.SetNativeResolver(stdlibs.NativeResolver)
@@ -269,6 +278,24 @@ func (e *c11Env) mInit() {
 	}
 	gs.PopulateStdlibCache(stdlibs.InitOrder())
 	e.mstore, e.mcache = gs, cache
+}
+
+// c11PeekKeeper reads VMKeeper.gnoStore and VMKeeper.typeCheckCache.
+func c11PeekKeeper(k *vm.VMKeeper) (gs gno.Store, cache gno.TypeCheckCache, ok bool) {
+	defer func() {
+		if recover() != nil {
+			ok = false
+		}
+	}()
+	v := reflect.ValueOf(k).Elem()
+	f := v.FieldByName("gnoStore")
+	c := v.FieldByName("typeCheckCache")
+	if !f.IsValid() || !c.IsValid() {
+		return nil, nil, false
+	}
+	gs, ok1 := reflect.NewAt(f.Type(), unsafe.Pointer(f.UnsafeAddr())).Elem().Interface().(gno.Store)
+	cache, ok2 := reflect.NewAt(c.Type(), unsafe.Pointer(c.UnsafeAddr())).Elem().Interface().(gno.TypeCheckCache)
+	return gs, cache, ok1 && ok2 && gs != nil && cache != nil
 }
 
 // c11RunM runs the VM section of the keeper's handler with the harness's own
